@@ -147,8 +147,8 @@ where
             Some((v, reason.message().to_string()))
         }
         Err(TestError::Abort(reason)) => {
-            eprintln!("proptest aborted: {}", reason.message());
-            None
+            eprintln!("HARNESS ERROR: proptest aborted the run: {}", reason.message());
+            std::process::exit(2)
         }
     }
 }
